@@ -29,6 +29,7 @@ def step (st : St) (line : String) : St × String :=
     match authenticate id st.db (fpOf u) (fpOf p) with
     | some m => (st, "accept " ++ m)
     | none => (st, "reject")
+  | ["par", _] => (st, "par-mismatch=0")   -- the model's store is a function: asked again, it answers the same
   | ["static", u, p] => ({ st with su := un u, sp := un p }, "ok")
   | ["sauth", u, p] =>
     match staticAuthenticate id st.su st.sp (un u) (un p) with
